@@ -37,7 +37,7 @@ fn meta() -> Meta {
     Meta {
         id: "C13",
         level: "exploration",
-        rule: "routing: every brace list of <= 4 (quick, 205 lists) / 5 (thorough, 325 lists) distinct names from {A, B, S, U, _Default} in every order plus plain targets {m, m::x, other} x 5 levels x module path {m, other, absent} x specification {off, error, info, trace, off,m=debug} x primary {recording writer, file}; duplication: 7 x 7 Duplicate settings for stderr x stdout x 5 levels at build time, and every ordered pair (old, new) through adapt_duplication_to_stderr / _stdout; distinct_nontrivial = distinct (specification, primary, target, level, module path) probes that address at least one additional writer, plus duplication probes with a non-None setting; routing also through a logger without any additional writer; one more unit routes records while an additional FileLogWriter fails with ENOSPC on every write (what is addressed to it reaches nobody else); plus an auxiliary free-running pass (sampling) in which two threads adapt the two duplication levels at the same moment, 3000 / 40000 rounds",
+        rule: "routing: every brace list of <= 4 (quick, 205 lists) / 5 (thorough, 325 lists) distinct names from {A, B, S, ' A' (unknown: names are taken verbatim, blanks included), _Default} in every order plus plain targets {m, m::x, other} x 5 levels x module path {m, other, absent} x specification {off, error, info, trace, off,m=debug} x primary {recording writer, file}; duplication: 7 x 7 Duplicate settings for stderr x stdout x 5 levels at build time, and every ordered pair (old, new) through adapt_duplication_to_stderr / _stdout; distinct_nontrivial = distinct (specification, primary, target, level, module path) probes that address at least one additional writer, plus duplication probes with a non-None setting; routing also through a logger without any additional writer; one more unit routes records while an additional FileLogWriter fails with ENOSPC on every write (what is addressed to it reaches nobody else); plus an auxiliary free-running pass (sampling) in which two threads adapt the two duplication levels at the same moment, 3000 / 40000 rounds",
         assumptions: vec![
             "repeated names in one brace list are not enumerated (the statement does not define them)".into(),
             "stdout / stderr are observed by redirecting fd 1 / 2 of the worker process".into(),
@@ -45,7 +45,8 @@ fn meta() -> Meta {
     }
 }
 
-const NAMES: [&str; 5] = ["A", "B", "S", "U", "_Default"];
+// (the unknown name differs from a registered one by a blank only: names are taken verbatim)
+const NAMES: [&str; 5] = ["A", "B", "S", " A", "_Default"];
 const PLAIN: [&str; 3] = ["m", "m::x", "other"];
 const MODPATHS: [Option<&str>; 3] = [Some("m"), Some("other"), None];
 
@@ -395,14 +396,14 @@ fn routing(spec_idx: usize, file_primary: bool, with_writers: bool) -> Result<(u
                     Some(_) => named("_Default") && spec.enabled(level, mp.unwrap_or("")),
                     None => spec.enabled(level, target),
                 });
-                let unknown = if with_writers { usize::from(named("U")) } else { list.as_ref().map_or(0, |l| l.iter().filter(|i| NAMES[**i] != "_Default").count()) };
+                let unknown = if with_writers { usize::from(named(" A")) } else { list.as_ref().map_or(0, |l| l.iter().filter(|i| NAMES[**i] != "_Default").count()) };
                 let want_e = unknown;
                 if list.is_some() && (named("A") || named("B") || named("S")) {
                     addressed += 1;
                 }
                 let shape = match list {
                     None => "plain".to_string(),
-                    Some(l) => format!("list{}{}{}", l.len().min(3), if named("U") { "+unknown" } else { "" }, if with_writers { "" } else { "/no-additional-writers" }),
+                    Some(l) => format!("list{}{}{}", l.len().min(3), if named(" A") { "+unknown" } else { "" }, if with_writers { "" } else { "/no-additional-writers" }),
                 };
                 let ctx = format!("spec `{}` primary={kind} target={target:?} level={level} module_path={mp:?}", spec.text());
                 for (who, got, want, ceiling) in [("custom", got_a, want_a, LevelFilter::Trace), ("file", got_b, want_b, ceil_b), ("syslog", got_s, want_s, ceil_s)] {
@@ -596,7 +597,7 @@ fn run_unit(tier: &str, unit: usize, out: &mut Out) {
             }
             out.outcome(if unit < ns { "routing-ok" } else { "duplication-ok" });
             if unit < 2 {
-                out.sample(json!({"routing_unit": {"spec": specs()[unit / 2].text(), "file_primary": unit % 2 == 1, "targets": brace_lists().len() + PLAIN.len(), "probes": n}, "example_targets": ["{A}", "{B,_Default}", "{S,U,A}", "m::x"]}));
+                out.sample(json!({"routing_unit": {"spec": specs()[unit / 2].text(), "file_primary": unit % 2 == 1, "targets": brace_lists().len() + PLAIN.len(), "probes": n}, "example_targets": ["{A}", "{B,_Default}", "{S, A,A}", "m::x"]}));
             }
         }
         Ran::Done(Err(f)) => out.violation(Violation::new(f.clause, f.cause, f.detail, case)),
